@@ -277,12 +277,8 @@ fn combine_predicates(preds: Vec<BoundExpression>) -> Option<BoundExpression> {
     })
 }
 
-/// Collects predicates for columns >= offset.
-fn collect_predicates_for_range(
-    expr: &BoundExpression,
-    offset: usize,
-    out: &mut Vec<BoundExpression>,
-) {
+/// Flattens a conjunction into its conjuncts.
+fn collect_conjuncts(expr: &BoundExpression, out: &mut Vec<BoundExpression>) {
     match expr {
         BoundExpression::BinaryOp {
             op: BinaryOperator::And,
@@ -290,77 +286,48 @@ fn collect_predicates_for_range(
             right,
             ..
         } => {
-            collect_predicates_for_range(left, offset, out);
-            collect_predicates_for_range(right, offset, out);
+            collect_conjuncts(left, out);
+            collect_conjuncts(right, out);
         }
-        _ => {
-            if all_columns_ge(expr, offset) {
-                if let Some(s) = shift_columns(expr, -(offset as i32)) {
-                    out.push(s);
-                }
-            }
-        }
+        other => out.push(other.clone()),
     }
 }
 
-/// Collects predicates involving columns in range [start, end).
-fn collect_predicates_involving_range(
-    expr: &BoundExpression,
-    start: usize,
-    end: usize,
-    out: &mut Vec<BoundExpression>,
-) {
-    match expr {
-        BoundExpression::BinaryOp {
-            op: BinaryOperator::And,
-            left,
-            right,
-            ..
-        } => {
-            collect_predicates_involving_range(left, start, end, out);
-            collect_predicates_involving_range(right, start, end, out);
-        }
-        _ => {
-            if any_column_in_range(expr, start, end) {
-                out.push(expr.clone());
-            }
-        }
-    }
-}
-
-/// Extracts the B⋈C condition for associativity transform.
-fn extract_bc_condition(
+/// Splits the conditions of `(A ⋈ B) ⋈ C` (both inner joins, all indices over the schema A,B,C)
+/// for `A ⋈ (B ⋈ C)`: a conjunct that only mentions columns of B and C moves into the new inner
+/// join (re-indexed to the schema B,C); every other conjunct - also one without any column - stays
+/// on the new outer join, whose schema is again A,B,C. No conjunct is dropped.
+fn split_conditions_for_associativity(
     outer: &Option<BoundExpression>,
     inner: &Option<BoundExpression>,
     a_cols: usize,
-    b_cols: usize,
-) -> Option<BoundExpression> {
-    let mut preds = Vec::new();
-    if let Some(c) = outer {
-        collect_predicates_for_range(c, a_cols, &mut preds);
-    }
+) -> (Option<BoundExpression>, Option<BoundExpression>) {
+    let mut conjuncts = Vec::new();
     if let Some(c) = inner {
-        if let Some(s) = shift_columns(c, -(a_cols as i32)) {
-            preds.push(s);
-        }
+        collect_conjuncts(c, &mut conjuncts);
     }
-    combine_predicates(preds)
-}
+    if let Some(c) = outer {
+        collect_conjuncts(c, &mut conjuncts);
+    }
 
-/// Extracts the A condition for associativity transform.
-fn extract_a_condition(
-    outer: &Option<BoundExpression>,
-    inner: &Option<BoundExpression>,
-    a_cols: usize,
-) -> Option<BoundExpression> {
-    let mut preds = Vec::new();
-    if let Some(c) = inner {
-        collect_predicates_involving_range(c, 0, a_cols, &mut preds);
+    let mut a_preds = Vec::new();
+    let mut bc_preds = Vec::new();
+    for conjunct in conjuncts {
+        let mut mentions_column = false;
+        let mut only_bc = true;
+        let complete = for_each_column(&conjunct, &mut |idx| {
+            mentions_column = true;
+            only_bc &= idx >= a_cols;
+        });
+        if complete && mentions_column && only_bc {
+            if let Some(shifted) = shift_columns(&conjunct, -(a_cols as i32)) {
+                bc_preds.push(shifted);
+                continue;
+            }
+        }
+        a_preds.push(conjunct);
     }
-    if let Some(c) = outer {
-        collect_predicates_involving_range(c, 0, a_cols, &mut preds);
-    }
-    combine_predicates(preds)
+    (combine_predicates(a_preds), combine_predicates(bc_preds))
 }
 
 /// Classifies a predicate into left-only, right-only, or join predicates.
@@ -551,9 +518,11 @@ impl TransformationRule for JoinAssociativityRule {
         let a_cols = a_props.schema.num_columns();
         let b_cols = b_props.schema.num_columns();
 
+        let (a_cond, bc_cond) =
+            split_conditions_for_associativity(&outer.condition, &inner.condition, a_cols);
+
         // Build B⋈C
         let bc_expr = {
-            let bc_cond = extract_bc_condition(&outer.condition, &inner.condition, a_cols, b_cols);
             let bc_join = JoinOp::new(
                 JoinType::Inner,
                 bc_cond,
@@ -562,8 +531,6 @@ impl TransformationRule for JoinAssociativityRule {
             );
             LogicalExpr::new(LogicalOperator::Join(bc_join), vec![b_group, c_group])
         };
-
-        let a_cond = extract_a_condition(&outer.condition, &inner.condition, a_cols);
 
         let bc_group = memo.insert_logical_expr(bc_expr);
 
